@@ -51,8 +51,33 @@ def observe(c):
                         "outside_cell": abtem.CustomScan(np.array([[-1.3, extent[1] + 0.7], [2 * extent[0], -3.0]])),
                         "grid_scan": abtem.GridScan(start=(0, 0), end=(2.0, 1.5), gpts=(2, 3))}[c["pos"]]
                 w = probe.build(scan=scan, lazy=c["lazy"])
+                builder = probe
             else:
-                w = abtem.PlaneWave(energy=100e3, extent=extent, gpts=gpts, tilt=tilt, normalize=(c["kind"] == "plane_normalized")).build(lazy=c["lazy"])
+                builder = abtem.PlaneWave(energy=100e3, extent=extent, gpts=gpts, tilt=tilt, normalize=(c["kind"] == "plane_normalized"))
+                w = builder.build(lazy=c["lazy"])
+            for ed in c.get("edits", []):
+                # the same builder object, edited after it has been built once
+                if c["lazy"]:
+                    w.compute()
+                if ed == "energy":
+                    builder.energy = 200e3 if builder.energy != 200e3 else 60e3
+                elif ed == "extent":
+                    builder.extent = (extent[0] * 1.5, extent[1] * 1.25)
+                elif ed == "gpts":
+                    builder.gpts = (gpts[0] + 5, gpts[1] + 2)
+                elif ed == "sampling":
+                    builder.sampling = (0.31, 0.27)
+                elif ed == "cutoff":
+                    builder.aperture.semiangle_cutoff = float(builder.aperture.semiangle_cutoff) * 0.6
+                elif ed == "defocus":
+                    builder.aberrations.defocus = -80.0
+                elif ed == "Cs":
+                    builder.aberrations.Cs = 3e5
+                elif ed == "tilt":
+                    builder.tilt = (-2.0, 4.5)
+                elif ed == "soft":
+                    builder.aperture.soft = not builder.aperture.soft
+                w = builder.build(scan=scan, lazy=c["lazy"]) if c["kind"] == "probe" else builder.build(lazy=c["lazy"])
             if c["lazy"]:
                 w = w.compute()
             a = np.asarray(w.array).astype(np.complex128)
@@ -67,7 +92,8 @@ def observe(c):
 
 def tags_for(ev, clauses):
     c = ev["case"]
-    return {"clauses": sorted(clauses), "kind": c["kind"], "cutoff": c["cutoff"], "soft": c["soft"], "ab": c["ab"], "tilt": c["tilt"], "pos": c["pos"]}
+    return {"clauses": sorted(clauses), "kind": c["kind"], "cutoff": c["cutoff"], "soft": c["soft"], "ab": c["ab"], "tilt": c["tilt"], "pos": c["pos"],
+            "edits": list(c.get("edits", []))}
 
 
 def judge(ctx: Ctx, evs):
@@ -93,7 +119,8 @@ def run(ctx: Ctx):
                 "aberration set (14: none, 9 single symbols with angles, 2 combinations, a Gaussian defocus distribution, a Cs series) x tilt "
                 "(none, scalar, one distribution + scalar, array of pairs) x position class (origin, off-grid, several, "
                 "outside the cell, grid scan) x lazy/eager, plus plane waves (normalised / raw x tilt x grid x lazy/eager), enumerated by "
-                "TLC; every member of every built ensemble is measured; non-trivial = every build")
+                "TLC; plus histories: one builder object built, edited through its attributes (energy, extent, gpts, sampling, cutoff, defocus, "
+                "Cs, tilt; one or two edits) and built again; every member of every built ensemble is measured; non-trivial = every build")
     r = ctx.design_check("Norm", "Norm.cfg", label="build space", workers=1)
     self_test(ctx)
     cases = [json.loads(tlc.tla_value_to_py(s)[1]) for s in r.printed("CASE")]
@@ -101,7 +128,9 @@ def run(ctx: Ctx):
     rng = random.Random(ctx.seed)
     cases.sort(key=lambda c: json.dumps(c, sort_keys=True))
     rng.shuffle(cases)
-    planes = [c for c in cases if c["kind"] != "probe"]
+    hists = [c for c in cases if "edits" in c]
+    cases = [c for c in cases if "edits" not in c]
+    planes = [c for c in cases if c["kind"] != "probe"] + (hists[:90] if quick else hists)
     probes = [c for c in cases if c["kind"] == "probe"]
     if quick:
         probes = probes[:400]
